@@ -21,6 +21,9 @@ mutual
       · have := items_restores (stk ++ [(pushed (current stk) arg).1]) body
         simp only []
         rw [this]; simp
+    | «catch» body =>
+      simp only [runItem]
+      exact items_restores stk body
   theorem items_restores (stk : List Scope) (is : List Item) : (runItems stk is).1 = stk := by
     cases is with
     | nil => simp [runItems]
